@@ -1,3 +1,4 @@
+from copy import copy
 from typing import Tuple
 
 from bibtexparser.library import Library
@@ -68,7 +69,8 @@ class SortFieldsCustomMiddleware(BlockMiddleware):
                 return len(self._order)
 
         entry.fields = sorted(entry.fields, key=_sort_key)
-        entry.parser_metadata[self.metadata_key()] = self._order
+        # A copy: the metadata of a block must not alias this middleware's configuration
+        entry.parser_metadata[self.metadata_key()] = copy(self._order)
         return entry
 
     # docstr-coverage: inherited
